@@ -101,6 +101,10 @@ func canonBytes(m protoreflect.Message) []byte {
 			continue
 		}
 		v := m.Get(fd)
+		// an empty bytes wrapper and an absent one are the same value in the YANG model
+		if fd.Kind() == protoreflect.MessageKind && !fd.IsList() && fd.Message().FullName() == "ywrapper.BytesValue" && len(v.Message().Get(fd.Message().Fields().ByName("value")).Bytes()) == 0 {
+			continue
+		}
 		tag := fmt.Sprintf("%s=", fd.Name())
 		switch {
 		case fd.IsList():
